@@ -389,11 +389,11 @@ Proof.
     eapply okp_bindT; [apply okp_add_defaults|]. intros st3.
     apply okp_vres_to_res.
   - destruct (is_set s_ignore_errors c); [|exact Hparsed].
-    pose proof (okp_add_env c st) as He.
-    destruct (add_env c st) as [s1|e1 s1|x1]; cbn in He.
-    + pose proof (okp_add_defaults c s1) as Hd. destruct (add_defaults c s1); cbn in Hd |- *; first [exact Hparsed|exact Hd].
-    + pose proof (okp_add_defaults c s1) as Hd. destruct (add_defaults c s1); cbn in Hd |- *; first [exact Hparsed|exact Hd].
-    + exact He.
+    pose proof (okp_resolve_pending c st) as Hr.
+    destruct (resolve_pending c st) as [s0|e0 s0|x0]; cbn in Hr; [| |exact Hr].
+    all: pose proof (okp_add_env c s0) as He.
+    all: destruct (add_env c s0) as [s1|e1 s1|x1]; cbn in He; [| |exact He].
+    all: pose proof (okp_add_defaults c s1) as Hd; destruct (add_defaults c s1); cbn in Hd |- *; first [exact Hparsed|exact Hd].
   - exact Hparsed.
 Qed.
 
